@@ -44,7 +44,9 @@ CLAIMS = {
              "keys (ctx/copy, 13 cases); dialects that forbid GROUP BY alias force the flag whatever context they get "
              "(ctx/convention); no package object is formatted through str() inside a render (ctx/str-bypass); no get_sql "
              "writes to the object it renders (ctx/stateless = the C02 purity obligations); string / JSON literals are "
-             "escaped by the dialect of the context (ctx/escape = the C05 obligations under the MySQL dialect).",
+             "escaped by the dialect of the context (ctx/escape = the C05 obligations under the MySQL dialect); JSON text "
+             "does not depend on the identifier quote (ctx/json-quote); set operands are bracketed by the base "
+             "statement's convention (ctx/setop-wrap).",
         note=TRUST + "Wrapper choice per position (MySQL backslash rule) is decided under C05. Set-operand wrapping "
                      "is a builder attribute, not a context component, and is not covered.",
         design="§4.4, §5 C08"),
@@ -67,7 +69,8 @@ CLAIMS = {
         text="Every clause of every statement builder is rendered with with_namespace == NS(self) (bare positions: "
              "False) (ns/decision); Field/Star print the qualifier iff table and (with_namespace or table.alias) and "
              "the qualifier is the quoted alias-else-name (ns/field, ns/star, ns/table-name); where()/prewhere() never "
-             "clear the foreign-table flag (ns/foreign-flag). Refuted obligations are listed as known findings.",
+             "clear the foreign-table flag (ns/foreign-flag); _validate_table examines every field of the term "
+             "(ns/validate); names given to orderby()/groupby() become fields of the first FROM source (ns/str-column). Refuted obligations are listed as known findings.",
         note=TRUST + "Known findings: PostgreSQL RETURNING qualification (pinned by tests), MySQL UPDATE tail clauses.",
         design="§5 C11"),
     "C12": dict(
@@ -129,7 +132,8 @@ CLAIMS = {
         level="proof",
         text="For every class, on every returning path of replace_table each rendered child slot is rebuilt by a "
              "nested replace_table call or by assignment of the new table, and the rebuilt value is stored in that "
-             "slot of the returned object (slots/replace); every receiver of a nested "
+             "slot of the returned object, for every kind of element that is rendered (slots/replace); a result built by "
+             "the constructor keeps the receiver's other attributes (slots/preserve); every receiver of a nested "
              "call has the method (slots/callee); the receiver is untouched and the result is new (slots/frame).",
         note=TRUST + "The homomorphism lemma (slot-wise replacement = construction with the new table) is a paper "
                      "argument.",
@@ -176,7 +180,8 @@ CLAIMS = {
         level="other",
         text="In every render function of every class each name-typed datum reaches the text only through "
              "format_quotes with the quote character of the context (alias: the alias quote character) "
-             "(quote/site); a Field/Table/Index/Column/Schema prints its quoted name on every path (quote/emit); no package object is formatted through str() inside a render (quote/str-bypass); "
+             "(quote/site); a Field/Table/Index/Column/Schema prints its quoted name on every path (quote/emit); a column/star qualifier is the quoted alias-else-name "
+             "of its source (quote/qualifier); no package object is formatted through str() inside a render (quote/str-bypass); "
              "constructors store name arguments unmodified (name/store); format_quotes wraps and doubles (quote/func - "
              "known finding: no doubling); no SQL "
              "template is computed from data (quote/template); the dialect contexts carry the dialect's quote "
